@@ -21,7 +21,9 @@ each landing point inside a pass; the statements around the loop are evaluated s
 them, with the loop replaced by its summary. No generated line number is quoted: renumbering the source does not touch
 the proofs; adding a statement to the run loop changes the pass lengths, which are recomputed (`eval_nat%`).
 
-For the remote kind the theorem is **partial**: it covers every event that lands before the loop is left (`K` smaller
+`C06_generated_unbounded_ends_*`: the "always ends" clause for a graceful stop landing anywhere inside the loop.
+
+For the remote kind the prefix theorem is **partial**: it covers every event that lands before the loop is left (`K` smaller
 than the line events before the loop plus those of the loop on `n` items); the symbolic evaluation of the long tail of
 `_run_backend` after the loop was too expensive to keep in the build. Events landing there are covered by the finite
 table `C06_generated_remote` (two items).
@@ -56,6 +58,26 @@ theorem C06_generated_unbounded_remote_partial (a : Async) (ha : a = .raiseWte f
     (hK : K < premoteP + loopLen n premoteL premoteLr) :
     ∃ F0, ∀ F, F0 ≤ F → StreamShape n (stoppedRun premoteRun F n K a) :=
   premote_whole_partial plainEnv plainEnv_returns plainEnv_returnsC05 a ha n K hK
+
+/-- **C06 "always ends", regenerated programs, any number of items: a graceful stop that lands inside the loop** - in any
+    of the `n + 1` passes, at any line of it - leaves the stream with the first `j ≤ n` results followed by exactly one end
+    marker. (The region grows with `n`; landing points before and after the loop are the two-item tables
+    `C06_graceful_ends_*`, which also show where the clause fails: inside the clean-up itself.) -/
+theorem C06_generated_unbounded_ends_thread (n K : Nat) (h1 : pthreadP ≤ K) (h2 : K < pthreadP + loopLen n pthreadL pthreadLr) :
+    ∃ F0, ∀ F, F0 ≤ F → StreamEnds n (stoppedRun pthreadRun F n K (.raiseWte false)) :=
+  pthread_ends_in_loop plainEnv plainEnv_returns (.raiseWte false) (Or.inl rfl) (by simp) n K h1 h2
+
+theorem C06_generated_unbounded_ends_process (a : Async) (ha : a = .raiseWte false ∨ a = .raiseWte true) (n K : Nat)
+    (h1 : pprocessP ≤ K) (h2 : K < pprocessP + loopLen n pprocessL pprocessLr) :
+    ∃ F0, ∀ F, F0 ≤ F → StreamEnds n (stoppedRun pprocessRun F n K a) :=
+  pprocess_ends_in_loop plainEnv plainEnv_returns a (by rcases ha with rfl | rfl <;> simp [pprocessCov])
+    (by rcases ha with rfl | rfl <;> simp) n K h1 h2
+
+theorem C06_generated_unbounded_ends_remote (a : Async) (ha : a = .raiseWte false ∨ a = .raiseWte true) (n K : Nat)
+    (h1 : premoteP ≤ K) (h2 : K < premoteP + loopLen n premoteL premoteLr) :
+    ∃ F0, ∀ F, F0 ≤ F → StreamEnds n (stoppedRun premoteRun F n K a) :=
+  premote_ends_in_loop plainEnv plainEnv_returns a (by rcases ha with rfl | rfl <;> simp [premoteCov])
+    (by rcases ha with rfl | rfl <;> simp) n K h1 h2
 
 /-- what `StreamShape` says about the values a reader obtains: they are exactly the first `j` result messages -/
 theorem streamShape_items (n : Nat) (r : St × Out) (h : StreamShape n r) :
